@@ -463,7 +463,9 @@ def _parse_line_v33(raw, system):
             'u': data[13],
             'bus1': data[0], 'bus2': data[1],
             'r': data[3], 'x': data[4], 'b': data[5],
+            'g1': data[9], 'b1': data[10], 'g2': data[11], 'b2': data[12],
             'rate_a': data[6], 'rate_b': data[7], 'rate_c': data[8],
+            'Sn': system.config.mva,
             'Vn1': system.Bus.get(src='Vn', idx=data[0], attr='v'),
             'Vn2': system.Bus.get(src='Vn', idx=data[1], attr='v'),
         }
@@ -573,6 +575,9 @@ def _parse_transf_v33(raw, system, max_bus):
 
             out['Bus'].append(param)
 
+            # CZ - Z code, 1-system base, 2-winding base (`SBASE1-2` is used for the star equivalent)
+            Sn = data[1][2] if data[0][5] == 2 else system.config.mva
+
             r = []
             x = []
             r.append((data[1][0] + data[1][6] - data[1][3])/2)
@@ -592,6 +597,7 @@ def _parse_transf_v33(raw, system, max_bus):
                          'x': x[i],
                          'tap': data[2+i][0],
                          'phi': data[2+i][2] * deg2rad,
+                         'Sn': Sn,
                          'Vn1': system.Bus.get(src='Vn', idx=data[0][i], attr='v'),
                          'Vn2': 1.0,
                          }
